@@ -473,3 +473,167 @@ SPECS.append(disp_spec(
            'promise and registers the task; an exception sets errors, stores the error triple, fires exactly one exception event '
            '(+ one <name>_failure iff requested) and the loop goes on; KeyboardInterrupt/SystemExit map to stop(); _eventDone is '
            'called exactly once with err set iff some handler raised'))
+
+
+# ============================================================================= Manager._eventDone (C04 success gating, C05 cause walk)
+def child_kind(e):
+    if isinstance(e, VCons) and e.tag == 'child' and len(e.args) >= 2 and isinstance(e.args[1], VStr) and z3.is_string_value(e.args[1].t):
+        return e.args[1].t.as_string()
+    return None
+
+
+def ed_setup(I):
+    self = obj(I, 'self', 'Manager')
+    event = obj(I, 'event', 'Event')
+    err = sym(I, 'err', ERR)
+    val = I.field(event, 'value')
+    I.assume(z3.And(val.t != core.null(), val.t != event.t))
+    I.assume(I.fz(event, 'waitingHandlers') >= 0)
+    I.st.uses_any = True
+    I.st.ghost['CHAN'] = VAny(z3.Const('channel0', core.AnySort()))
+    I.st.ghost['E0'] = event
+    I.st.inputs['waitingHandlers'] = I.fz(event, 'waitingHandlers')
+    I.st.inputs['value.errors'] = I.fz(val, 'errors')
+    I.st.inputs['event.success'] = I.fz(event, 'success')
+    I.st.inputs['err_is_none'] = err.isnone
+    I.assume(tracked_wf(I), 'requires Tracked: cause present iff effects present')
+    I.assume(z3.Implies(z3.Not(err.isnone), I.fz(val, 'errors')),
+             'requires err given => value.errors (obligation err_passed_iff_some_handler_raised at the call in _dispatcher)')
+    return {'self': self, 'event': event, 'err': err}
+
+
+def tracked_wf(I):
+    """representation invariant of completion tracking: `cause` and `effects` are set and deleted together"""
+    x = core.fresh('e', core.RefSort())
+    return z3.ForAll([x], z3.Select(I.st.heap['cause'][0], x) == z3.Select(I.st.heap['effects'][0], x))
+
+
+def ed_entry_hook(I):
+    """state when the cause walk starts = after the done/success block: C04 feedback obligations for an effective call"""
+    ev = I.st.ghost['E0']
+    val = I.field(ev, 'value')
+    fired = log(I, 'FIRED')
+    done = [e for e in fired if child_kind(e) == 'done']
+    succ = [e for e in fired if child_kind(e) == 'success']
+    cover(I, 'effective')
+    I.oblige('effective_only_when_no_handler_waits', I.fz(ev, 'waitingHandlers') == 0)
+    I.oblige('done_event_iff_alert_done', z3.BoolVal(len(done) == 1) == I.fz(ev, 'alert_done'))
+    I.oblige('success_at_most_once', z3.BoolVal(len(succ) <= 1))
+    I.oblige('success_iff_requested_and_no_handler_raised', z3.BoolVal(len(succ) == 1) == z3.And(I.fz(ev, 'success'), z3.Not(I.fz(val, 'errors'))),
+             detail='<name>_success is fired iff requested and no handler of the event raised (value.errors), whoever calls _eventDone')
+    I.oblige('only_done_and_success_before_completion', z3.BoolVal(len(fired) == len(done) + len(succ)))
+    for e in succ:
+        I.oblige('success_event_of_this_event', e.args[0].t == ev.t)
+    I.st.ghost['PRE_WALK_FIRED'] = len(fired)
+
+
+def ed_body_hook(I):
+    g = I.st.ghost
+    ev = I.local('event')
+    g['W_EV'] = ev
+    g['W_BASE'] = len(log(I, 'FIRED'))
+    c = I.field(ev, 'cause')
+    e = I.field(ev, 'effects')
+    g['W_CAUSE'] = (c.present, c.val.t)
+    g['W_EFF'] = (e.present, e.val.t)
+    g['W_OPEN'] = True
+
+
+def ed_walk_obligations(I, how):
+    g = I.st.ghost
+    ev = g['W_EV']
+    cp, cv = g['W_CAUSE']
+    ep, e0 = g['W_EFF']
+    fired = log(I, 'FIRED')[g['W_BASE']:]
+    comp = [x for x in fired if child_kind(x) == 'complete']
+    tracked = z3.And(cp, cv != core.null())
+    c1, e1 = I.field(ev, 'cause'), I.field(ev, 'effects')
+    if how == 'continue':
+        cover(I, 'ascend')
+        # the loop goes on only after this event's closure has drained
+        I.oblige('walk.ascends_only_at_zero', z3.And(tracked, e0 - 1 <= 0))
+        I.oblige('walk.complete_fired_iff_requested', z3.BoolVal(len(comp) == 1) == I.fz(ev, 'complete'),
+                 detail='<name>_complete exactly when the counter reaches zero and the event asked for it')
+        I.oblige('walk.nothing_else_fired', z3.BoolVal(len(fired) == len(comp)))
+        for x in comp:
+            I.oblige('walk.complete_event_of_this_event', x.args[0].t == ev.t)
+        I.oblige('walk.tracking_attributes_removed', z3.And(z3.Not(c1.present), z3.Not(e1.present)),
+                 detail='cause/effects are deleted, so the same closure can never be counted down twice')
+        I.oblige('walk.moves_to_cause', I.local('event').t == cv)
+    else:
+        cover(I, 'stop')
+        # the walk ends here: either the event is not tracked (nothing happens) or descendants remain
+        I.oblige('walk.stop.no_complete_fired', z3.BoolVal(len(fired) == 0))
+        I.oblige('walk.stop.untracked_or_descendants_remain', z3.Or(z3.Not(tracked), e0 - 1 > 0))
+        I.oblige('walk.stop.counter_decremented_once', z3.Implies(tracked, z3.And(e1.present, e1.val.t == e0 - 1, c1.present, c1.val.t == cv)))
+        I.oblige('walk.stop.untracked_untouched', z3.Implies(z3.Not(tracked), z3.And(c1.present == cp, e1.present == ep)))
+
+
+def ed_iter_hook(I):
+    ed_walk_obligations(I, 'continue')
+    I.st.ghost['W_OPEN'] = False
+
+
+def ed_post(I, outcome, ctx):
+    if no_escape(I, outcome):
+        return
+    g = I.st.ghost
+    if g.get('W_OPEN'):
+        ed_walk_obligations(I, 'break')
+        return
+    cover(I, 'waiting')
+    ev = ctx['args']['event']
+    # not effective: some handler is still suspended: nothing fired, tracking untouched
+    I.oblige('waiting.nothing_fired', z3.BoolVal(len(log(I, 'FIRED')) == 0))
+    I.oblige('waiting.only_when_handlers_wait', I.fz(ev, 'waitingHandlers') > 0)
+    for f in ('cause', 'effects'):
+        for o, n in zip(ctx['pre'][f], I.st.heap[f]):
+            I.oblige('waiting.frame.' + f, o == n)
+
+
+def v_value_get(I, o):
+    I.st.uses_any = True
+    return VAny(core.fn('VALUE_OF', core.RefSort(), core.AnySort())(o.t))
+
+
+def ed_replay(model, ob):
+    if 'success_iff' not in ob['name']:
+        return None
+    return '''
+import sys
+from circuits import Component, Event, handler
+class hello(Event):
+    success = True
+    failure = True
+seen = []
+class App(Component):
+    @handler('hello', priority=2)
+    def a(self):
+        raise RuntimeError('boom')
+    @handler('hello', priority=1)
+    def b(self):
+        yield 1
+    def hello_success(self, *a): seen.append('success')
+    def hello_failure(self, *a): seen.append('failure')
+    def exception(self, *a, **k): pass
+app = App()
+app.fire(hello())
+for _ in range(8): app.tick()
+print('feedback events for an event with one raising and one generator handler:', seen)
+sys.exit(1 if ('success' in seen and 'failure' in seen) else 0)
+'''
+
+
+M_FIELDS.update({'success_channels': Dyn(Tup(Any)), 'complete_channels': Dyn(Tup(Any))})
+
+SPECS.append(FucSpec(
+    'C04', FILE, 'Manager._eventDone', ed_setup, ed_post, name='Manager._eventDone', fields=M_FIELDS, field_alias=ALIAS,
+    calls={'event.child': s_child, 'self.fire': s_fire}, classes=EVENT_CLASSES, replay=ed_replay,
+    attr_hooks={'event.channels': lambda I: VTuple([I.st.ghost['CHAN']])}, getattr_hooks={'v_value': v_value_get},
+    loops={0: LoopSpec(inv=[('tracked_wf', tracked_wf)], modular=True, entry_hook=ed_entry_hook, body_hook=ed_body_hook, iter_hook=ed_iter_hook,
+                       frame_fields=['value', 'complete', 'success', 'alert_done', 'errors', 'waitingHandlers'],
+                       kinds={'cause': Opt(Ref)})},
+    cover=['effective', 'waiting', 'ascend', 'stop'],
+    clause='_eventDone: nothing happens while a handler waits; otherwise <name>_done iff alert_done, <name>_success iff requested and '
+           'no handler raised; then the cause walk: one decrement per finished closure, <name>_complete exactly when a counter reaches '
+           'zero and was requested, tracking attributes deleted, ascend to the cause'))
